@@ -129,9 +129,9 @@ prop('C02', COMMON +
      'descent into a nested statement list is bracketed by the same contexts as its sibling descents. COUNTER-SYNC: '
      'every temp-name counter is synchronised back into the heap on every path before the next one is created. GUARD-TABLE: '
      'the loop optimiser\'s operator tables (guard extraction, negation, rebuild) are evaluated from MIR for every input and '
-     'compared with integer order logic. BRANCH-PAIR-EMPTY: an emptiness test of one branch list of an IfElse comes with a test of the sibling list. '
+     'compared with integer order logic. BRANCH-PAIR-EMPTY: an emptiness test of one branch list of an IfElse comes with a test of the sibling list. INLINE-REWRITES-ALL: every expression operand of a statement rebuilt by the inliner\'s renaming function comes out of the renaming. '
      'Does not decide loop closed forms, LICM legality, inlining capture-avoidance or escape analysis.',
-     [const_arith.run, optimizer.run_dce_keep, optimizer.run_fold_table, optimizer.run_swap_table, optimizer.run_branch_pair, guard_table.run, traversal.run_tuple_components, scope.run_bracket, scope.run_counter_sync,
+     [const_arith.run, optimizer.run_dce_keep, optimizer.run_fold_table, optimizer.run_swap_table, optimizer.run_branch_pair, optimizer.run_inline_rewrites_all, guard_table.run, traversal.run_tuple_components, scope.run_bracket, scope.run_counter_sync,
       TI.make(['T-dce', 'T-conditional_constant_propagation', 'T-inlining', 'T-local_value_numbering',
                'T-scalar_replacement', 'T-unused_name_elimination', 'T-loop_induction_variable_elimination'])])
 
@@ -164,8 +164,8 @@ prop('C08', COMMON +
      'child printed in an undelimited position (unary operand, binary operands, lambda body, chain base) reaches the '
      'precedence decider; the plain printer may take a left operand only behind an equal-precedence test and a right operand '
      'only behind same-operator + associative-operator tests (reported as the known regrouping finding). TYPE-WALKER: the '
-     'annotation printer visits every child position. PLAIN-POSITION: a child the printer emits without a parenthesis decision is parsed with the top production of the expression grammar (productions ordered by fall-through). PAREN-UNARY-LEVEL, LIST-END-TOKEN, LITERAL-SOURCE as described in DESIGN.md. Does not decide layout.',
-     [printer_rules.run_prec_iso, printer_rules.run_literal_parity, printer_rules.run_paren_assoc, printer_rules.run_paren_sink, printer_rules.run_paren_unary_level, printer_rules.run_plain_position, printer_rules.run_pattern_parens, shape.run_literal_source, parser_progress.run_list_end_token, type_walker.make(('samlang_printer',), 1), TI.make(['T-prt'])])
+     'annotation printer visits every child position. PLAIN-POSITION: a child the printer emits without a parenthesis decision is parsed with the top production of the expression grammar (productions ordered by fall-through). CONTINUATION-LEVELS: the look-ahead path that continues a parsed expression applies the continuation of every operator level. PAREN-UNARY-LEVEL, LIST-END-TOKEN, LITERAL-SOURCE as described in DESIGN.md. Does not decide layout.',
+     [printer_rules.run_prec_iso, printer_rules.run_literal_parity, printer_rules.run_paren_assoc, printer_rules.run_paren_sink, printer_rules.run_paren_unary_level, printer_rules.run_plain_position, printer_rules.run_continuation_levels, printer_rules.run_pattern_parens, shape.run_literal_source, parser_progress.run_list_end_token, type_walker.make(('samlang_printer',), 1), TI.make(['T-prt'])])
 
 prop('C09', COMMON +
      'Clause "every comment is kept". COMMENT-LINEAR: linear-resource typestate dataflow over the parser MIR (Vec<Comment> '
@@ -235,7 +235,7 @@ prop('C14', COMMON +
      'CURSOR-LOC-FRESH - the parser cursor\'s last_location (moved over skipped comments by every peek) is read for a node '
      'location only directly after a token was consumed; POSITION-FROM-TOKENS - above the character-level lexer no position is built by arithmetic; LOC-ENCLOSES siblings - a child built in the constructing function does not enclose a sibling. Does not decide the lexer\'s line/column bookkeeping, that positions lie '
      'inside the document, or that siblings do not overlap.',
-     [loc_enclose.run, loc_enclose.run_name_loc_pair, loc_enclose.run_result_loc, loc_enclose.run_cursor_loc_fresh, loc_enclose.run_position_from_tokens],
+     [loc_enclose.run, loc_enclose.run_name_loc_pair, loc_enclose.run_result_loc, loc_enclose.run_cursor_loc_fresh, loc_enclose.run_position_from_tokens, loc_enclose.run_loc_module],
      ['tokens are consumed in source order and the lexer assigns increasing positions (C05 LEX-BOUNDS side)'])
 
 prop('C17', COMMON +
@@ -303,7 +303,7 @@ prop('C05', COMMON +
      'dominated by recording a type for the identifier (get_captured unwraps it). PARSER-PROGRESS: clause "loops forever" for the '
      'parser - an interprocedural must-consume analysis over 75 token classes (summaries per production, specialised on constant '
      'keyword/operator arguments) shows that every trip through each of the parser\'s token-driven loops consumes a token. GATE: '
-     'parse errors land in the error set the compile entry point tests. SAVE-CALL-RESTORE: the parser\'s type-parameter scope saved before a member is restored on every path after it. Does not decide unbounded recursion or stack depth.',
-     [lex_bounds.run, lex_bounds.run_int_range, shape.run_fabricate, shape.run_shape, str_slice.run, gate.run_binder_write, parser_progress.run, gate.run_gate, scope.run_save_call_restore],
+     'parse errors land in the error set the compile entry point tests. SAVE-CALL-RESTORE: the parser\'s type-parameter scope saved before a member is restored on every path after it. LOC-MODULE: the parser builds no location of the dummy module (union with a real one asserts). Does not decide unbounded recursion or stack depth.',
+     [lex_bounds.run, lex_bounds.run_int_range, shape.run_fabricate, shape.run_shape, str_slice.run, gate.run_binder_write, parser_progress.run, gate.run_gate, scope.run_save_call_restore, loc_enclose.run_loc_module],
      ['lengths of in-memory slices are < 2^63 (usize additions on lengths do not overflow)',
       'A-05.1: parenthesised lists reaching a Tuple construction are non-empty'])
